@@ -173,36 +173,39 @@ Notation process := (process has_star matches basename_of re_match regex_name is
 Notation select_core := (select_core has_star matches basename_of re_match regex_name is_regex_name is_opt).
 Notation cmd_run_select := (cmd_run_select has_star matches basename_of re_match regex_name is_regex_name is_opt).
 
-(* one element of the filter list, declaratively: the four ways a name is accepted *)
-Inductive resolves (auto : bool) (tg : tmap) (tb : table) (f : name) : table -> list name -> Prop :=
-| by_name : has tb f = true -> resolves auto tg tb f tb [f]
-| by_target p : has tb f = false -> tg_get tg f = Some p -> resolves auto tg tb f tb [p]
+(* one element of the filter list, declaratively: the four ways a name is accepted, in the state
+   (ph, tb) = (subtask_placeholders, tasks) *)
+Inductive resolves (auto : bool) (tg : tmap) (ph : list name) (tb : table) (f : name)
+  : list name -> table -> list name -> Prop :=
+| by_name : has tb f = true -> resolves auto tg ph tb f ph tb [f]
+| by_target p : has tb f = false -> tg_get tg f = Some p -> resolves auto tg ph tb f ph tb [p]
 | by_delayed_sub bt l :
     has tb f = false -> tg_get tg f = None -> lookup tb (basename_of f) = Some bt -> s_loader bt = Some l ->
-    resolves auto tg tb f (set_task tb f (placeholder l [])) [f]
+    resolves auto tg ph tb f (f :: ph) (set_task tb f (placeholder l [])) [f]
 | by_delayed_regex :
     has tb f = false -> tg_get tg f = None -> lookup tb (basename_of f) = None ->
-    delayed_matched auto tb f <> [] ->
-    resolves auto tg tb f (fold_left (add_regex_task f) (delayed_matched auto tb f) tb)
-             (map (fun nl => regex_name f (fst nl)) (delayed_matched auto tb f)).
+    delayed_matched auto ph tb f <> [] ->
+    resolves auto tg ph tb f ph (fold_left (add_regex_task f) (delayed_matched auto ph tb f) tb)
+             (map (fun nl => regex_name f (fst nl)) (delayed_matched auto ph tb f)).
 (* ... and the only way it is rejected *)
-Definition unresolvable (auto : bool) (tg : tmap) (tb : table) (f : name) : Prop :=
+Definition unresolvable (auto : bool) (tg : tmap) (ph : list name) (tb : table) (f : name) : Prop :=
   has tb f = false /\ tg_get tg f = None /\
   match lookup tb (basename_of f) with
   | Some bt => s_loader bt = None
-  | None => delayed_matched auto tb f = []
+  | None => delayed_matched auto ph tb f = []
   end.
-Inductive resolves_all (auto : bool) (tg : tmap) : table -> list name -> table -> list name -> Prop :=
-| ra_nil tb : resolves_all auto tg tb [] tb []
-| ra_cons tb f r tb1 s tb2 s' :
-    resolves auto tg tb f tb1 s -> resolves_all auto tg tb1 r tb2 s' ->
-    resolves_all auto tg tb (f :: r) tb2 (s ++ s').
+Inductive resolves_all (auto : bool) (tg : tmap)
+  : list name -> table -> list name -> list name -> table -> list name -> Prop :=
+| ra_nil ph tb : resolves_all auto tg ph tb [] ph tb []
+| ra_cons ph tb f r ph1 tb1 s ph2 tb2 s' :
+    resolves auto tg ph tb f ph1 tb1 s -> resolves_all auto tg ph1 tb1 r ph2 tb2 s' ->
+    resolves_all auto tg ph tb (f :: r) ph2 tb2 (s ++ s').
 
 Lemma is_nil_false {A} (l : list A) : is_nil l = false <-> l <> [].
 Proof. destruct l; simpl; split; congruence. Qed.
 
-Lemma filter_one_Some auto tg tb f tb1 s :
-  filter_one auto tg tb f = Some (tb1, s) <-> resolves auto tg tb f tb1 s.
+Lemma filter_one_Some auto tg ph tb f ph1 tb1 s :
+  filter_one auto tg ph tb f = Some (ph1, tb1, s) <-> resolves auto tg ph tb f ph1 tb1 s.
 Proof.
   unfold Select.filter_one. split.
   - destruct (has tb f) eqn:E1.
@@ -212,7 +215,7 @@ Proof.
     destruct (lookup tb (basename_of f)) as [bt|] eqn:E3.
     { destruct (s_loader bt) as [l|] eqn:E4; [|discriminate].
       intros H; inversion H; subst. eapply by_delayed_sub; eauto. }
-    destruct (is_nil (delayed_matched auto tb f)) eqn:E5; [discriminate|].
+    destruct (is_nil (delayed_matched auto ph tb f)) eqn:E5; [discriminate|].
     intros H; inversion H; subst. apply by_delayed_regex; auto. apply is_nil_false; auto.
   - intros H; inversion H; subst.
     + rewrite H0. reflexivity.
@@ -221,88 +224,226 @@ Proof.
     + rewrite H0, H1, H2. apply is_nil_false in H3. rewrite H3. reflexivity.
 Qed.
 
-Lemma filter_one_None auto tg tb f :
-  filter_one auto tg tb f = None <-> unresolvable auto tg tb f.
+Lemma filter_one_None auto tg ph tb f :
+  filter_one auto tg ph tb f = None <-> unresolvable auto tg ph tb f.
 Proof.
   unfold Select.filter_one, unresolvable. split.
   - destruct (has tb f) eqn:E1; [discriminate|].
     destruct (tg_get tg f) as [p|] eqn:E2; [discriminate|].
     destruct (lookup tb (basename_of f)) as [bt|] eqn:E3.
     { destruct (s_loader bt) as [l|] eqn:E4; [discriminate|]. auto. }
-    destruct (is_nil (delayed_matched auto tb f)) eqn:E5; [|discriminate].
+    destruct (is_nil (delayed_matched auto ph tb f)) eqn:E5; [|discriminate].
     apply is_nil_true in E5. auto.
   - intros (H1 & H2 & H3). rewrite H1, H2.
     destruct (lookup tb (basename_of f)) as [bt|]; [rewrite H3; reflexivity|].
     rewrite H3. reflexivity.
 Qed.
 
-Lemma filter_list_ok auto tg fl : forall tb tb' sel,
-  filter_list auto tg tb fl = inr (tb', sel) <-> resolves_all auto tg tb fl tb' sel.
+Lemma filter_list_ok auto tg fl : forall ph tb ph' tb' sel,
+  filter_list auto tg ph tb fl = inr (ph', tb', sel) <-> resolves_all auto tg ph tb fl ph' tb' sel.
 Proof.
-  induction fl as [|f r IH]; intros tb tb' sel; cbn [Select.filter_list].
+  induction fl as [|f r IH]; intros ph tb ph' tb' sel; cbn [Select.filter_list].
   - split.
     + intros H; inversion H; subst. constructor.
     + intros H; inversion H; subst. reflexivity.
   - split.
-    + destruct (filter_one auto tg tb f) as [[tb1 s]|] eqn:E1; [|discriminate].
-      destruct (filter_list auto tg tb1 r) as [e|[tb2 s']] eqn:E2; [discriminate|].
+    + destruct (filter_one auto tg ph tb f) as [[[ph1 tb1] s]|] eqn:E1; [|discriminate].
+      destruct (filter_list auto tg ph1 tb1 r) as [e|[[ph2 tb2] s']] eqn:E2; [discriminate|].
       intros H; inversion H; subst.
       econstructor; [apply filter_one_Some; eauto | apply IH; auto].
-    + intros H; inversion H as [|a1 a2 a3 a4 a5 a6 a7 Hr Hra]; subst.
+    + intros H; inversion H as [|a1 a2 a3 a4 a5 a6 a7 a8 a9 a10 Hr Hra]; subst.
       apply filter_one_Some in Hr. rewrite Hr.
       apply IH in Hra. rewrite Hra. reflexivity.
 Qed.
 
-Lemma filter_list_err auto tg fl : forall tb f,
-  filter_list auto tg tb fl = inl f <->
-  exists pre post tb1 s1, fl = pre ++ f :: post /\ resolves_all auto tg tb pre tb1 s1 /\ unresolvable auto tg tb1 f.
+Lemma filter_list_err auto tg fl : forall ph tb f,
+  filter_list auto tg ph tb fl = inl f <->
+  exists pre post ph1 tb1 s1, fl = pre ++ f :: post /\ resolves_all auto tg ph tb pre ph1 tb1 s1 /\
+                              unresolvable auto tg ph1 tb1 f.
 Proof.
-  induction fl as [|x r IH]; intros tb f; cbn [Select.filter_list].
-  - split; [discriminate|]. intros (pre & post & tb1 & s1 & H & _). destruct pre; discriminate.
+  induction fl as [|x r IH]; intros ph tb f; cbn [Select.filter_list].
+  - split; [discriminate|]. intros (pre & post & ph1 & tb1 & s1 & H & _). destruct pre; discriminate.
   - split.
-    + destruct (filter_one auto tg tb x) as [[tb1 s]|] eqn:E1.
-      * destruct (filter_list auto tg tb1 r) as [e|[tb2 s']] eqn:E2; [|discriminate].
+    + destruct (filter_one auto tg ph tb x) as [[[ph1 tb1] s]|] eqn:E1.
+      * destruct (filter_list auto tg ph1 tb1 r) as [e|[[ph2 tb2] s']] eqn:E2; [|discriminate].
         intros H; inversion H; subst.
-        apply IH in E2. destruct E2 as (pre & post & tb3 & s3 & -> & Hra & Hun).
-        exists (x :: pre), post, tb3, (s ++ s3). split; [reflexivity|]. split; [|exact Hun].
+        apply IH in E2. destruct E2 as (pre & post & ph3 & tb3 & s3 & -> & Hra & Hun).
+        exists (x :: pre), post, ph3, tb3, (s ++ s3). split; [reflexivity|]. split; [|exact Hun].
         econstructor; eauto. apply filter_one_Some; auto.
-      * intros H; inversion H; subst. exists [], r, tb, [].
+      * intros H; inversion H; subst. exists [], r, ph, tb, [].
         split; [reflexivity|]. split; [constructor | apply filter_one_None; auto].
-    + intros (pre & post & tb1 & s1 & Heq & Hra & Hun).
+    + intros (pre & post & ph1 & tb1 & s1 & Heq & Hra & Hun).
       destruct pre as [|y pre]; simpl in Heq; inversion Heq; subst.
       * inversion Hra; subst. apply filter_one_None in Hun. rewrite Hun. reflexivity.
-      * inversion Hra as [|a1 a2 a3 tbm a5 a6 sm Hr Hra']; subst. apply filter_one_Some in Hr. rewrite Hr.
-        assert (E : filter_list auto tg tbm (pre ++ f :: post) = inl f).
-        { apply IH. exists pre, post, tb1, sm. auto. }
+      * inversion Hra as [|a1 a2 a3 a4 phm tbm sm a8 a9 sr Hr Hra']; subst. apply filter_one_Some in Hr. rewrite Hr.
+        assert (E : filter_list auto tg phm tbm (pre ++ f :: post) = inl f).
+        { apply IH. exists pre, post, ph1, tb1, sr. auto. }
         rewrite E. reflexivity.
+Qed.
+
+(* ---------- the sub-task placeholders are never taken for task-creators (repair 01f48fb) ---------- *)
+Lemma delayed_matched_In auto ph tb f k l :
+  In (k, l) (delayed_matched auto ph tb f) <->
+  exists t, In (k, t) tb /\ s_loader t = Some l /\ is_regex_name k = false /\ ~ In k ph /\
+            match l_regex l with Some rx => re_match rx f = true | None => auto = true end.
+Proof.
+  unfold Select.delayed_matched. rewrite in_flat_map. split.
+  - intros ([k' t] & Hin & H). simpl in H.
+    destruct (s_loader t) as [l'|] eqn:El; [|destruct H].
+    destruct (is_regex_name k') eqn:Er; [destruct H|].
+    destruct (mem k' ph) eqn:Em; [destruct H|]. apply mem_false_In in Em.
+    destruct (l_regex l') as [rx|] eqn:Ex.
+    + destruct (re_match rx f) eqn:Em2; [|destruct H]. destruct H as [H|[]]. inversion H; subst.
+      exists t. rewrite Ex. auto.
+    + destruct auto; [|destruct H]. destruct H as [H|[]]. inversion H; subst.
+      exists t. rewrite Ex. auto.
+  - intros (t & Hin & El & Er & Em & Hx). exists (k, t). split; auto. simpl.
+    rewrite El, Er. apply mem_false_In in Em. rewrite Em.
+    destruct (l_regex l) as [rx|]; [rewrite Hx | rewrite Hx]; left; reflexivity.
+Qed.
+
+Lemma keys_add_regex_fold f dm : forall tb k,
+  In k (map fst (fold_left (add_regex_task f) dm tb)) ->
+  In k (map fst tb) \/ exists nl, In nl dm /\ k = regex_name f (fst nl).
+Proof.
+  induction dm as [|nl dm IH]; intros tb k; simpl; auto.
+  intros H. apply IH in H. destruct H as [H|(nl' & Hn & ->)].
+  - unfold Select.add_regex_task in H. apply has_keys in H. rewrite has_set_task in H.
+    apply orb_true_iff in H. destruct H as [H|H].
+    + apply N.eqb_eq in H. right. exists nl. auto.
+    + left. apply has_keys. exact H.
+  - right. exists nl'. auto.
+Qed.
+
+(* where the keys of the table come from while the loop runs: the loaded task list tb0, the sub-task
+   placeholders, the `_regex_target..` placeholders *)
+Definition keys_from (tb0 : table) (ph : list name) (tb : table) : Prop :=
+  forall k, In k (map fst tb) -> In k (map fst tb0) \/ In k ph \/ is_regex_name k = true.
+
+Lemma resolves_keys_from tb0 auto tg ph tb f ph1 tb1 s :
+  (forall x k, is_regex_name (regex_name x k) = true) ->
+  resolves auto tg ph tb f ph1 tb1 s -> keys_from tb0 ph tb -> keys_from tb0 ph1 tb1.
+Proof.
+  intros Hrn H Hk. inversion H; subst; auto.
+  - intros k Hin. apply has_keys in Hin. rewrite has_set_task in Hin. apply orb_true_iff in Hin.
+    destruct Hin as [Hin|Hin].
+    + apply N.eqb_eq in Hin; subst. right; left; left; auto.
+    + apply has_keys in Hin. destruct (Hk k Hin) as [H5|[H5|H5]]; auto. right; left; right; auto.
+  - intros k Hin. apply keys_add_regex_fold in Hin. destruct Hin as [Hin|(nl & _ & ->)]; auto.
+Qed.
+
+Lemma resolves_all_keys_from tb0 auto tg ph tb fl ph' tb' sel :
+  (forall x k, is_regex_name (regex_name x k) = true) ->
+  resolves_all auto tg ph tb fl ph' tb' sel -> keys_from tb0 ph tb -> keys_from tb0 ph' tb'.
+Proof.
+  intros Hrn H. induction H; auto. intros Hk. apply IHresolves_all.
+  eapply resolves_keys_from; eauto.
+Qed.
+
+(* [ph] grows by the names accepted as sub-tasks of a delayed creator: elements of the command line that
+   were no task when they were read and are placeholders in the table from then on *)
+Lemma has_add_regex_fold f dm x : forall tb,
+  has tb x = true -> has (fold_left (add_regex_task f) dm tb) x = true.
+Proof.
+  induction dm as [|nl dm IH]; intros tb Hx; simpl; auto.
+  apply IH. unfold Select.add_regex_task. rewrite has_set_task, Hx. apply orb_true_r.
+Qed.
+
+Lemma resolves_has_mono auto tg ph tb f ph1 tb1 s x :
+  resolves auto tg ph tb f ph1 tb1 s -> has tb x = true -> has tb1 x = true.
+Proof.
+  intros H Hx. inversion H; subst; auto.
+  - rewrite has_set_task, Hx. apply orb_true_r.
+  - apply has_add_regex_fold; auto.
+Qed.
+
+Lemma resolves_all_has_mono auto tg ph tb fl ph' tb' sel x :
+  resolves_all auto tg ph tb fl ph' tb' sel -> has tb x = true -> has tb' x = true.
+Proof. intros H. induction H; auto. intros Hx. apply IHresolves_all. eapply resolves_has_mono; eauto. Qed.
+
+Lemma resolves_all_ph auto tg ph tb fl ph' tb' sel :
+  resolves_all auto tg ph tb fl ph' tb' sel ->
+  forall x, In x ph' -> In x ph \/ (In x fl /\ has tb x = false /\ has tb' x = true).
+Proof.
+  intros H. induction H as [|ph tb f r ph1 tb1 s ph2 tb2 s' Hr Hra IH]; auto.
+  intros x Hx. destruct (IH x Hx) as [H1|(H1 & H2 & H3)].
+  - inversion Hr; subst; auto. destruct H1 as [->|H1]; auto.
+    right. split; [left; auto|]. split; auto.
+    eapply resolves_all_has_mono; eauto. rewrite has_set_task, N.eqb_refl. reflexivity.
+  - right. split; [right; auto|]. split; auto.
+    destruct (has tb x) eqn:E; auto. rewrite (resolves_has_mono _ _ _ _ _ _ _ _ x Hr E) in H2. discriminate.
+Qed.
+
+(* The repaired loop, whole command line (subtask_placeholders starts empty): whenever an element f is
+   resolved through the target regexes, after any prefix of the command line, every task it is matched
+   with -- i.e. every k for which a task `_regex_target_<f>:<k>` is created and loader.basename := k is
+   executed -- is a task of the loaded task list tb0 carrying a loader, never one of the sub-task
+   placeholders made for the prefix (these are the `basename:sub` names of the prefix that were no task). *)
+Theorem regex_creators_original auto tg tb0 pre ph1 tb1 s1 f k l :
+  (forall x k, is_regex_name (regex_name x k) = true) ->
+  resolves_all auto tg [] tb0 pre ph1 tb1 s1 ->
+  In (k, l) (delayed_matched auto ph1 tb1 f) ->
+  In k (map fst tb0) /\ ~ In k ph1 /\ is_regex_name k = false /\
+  (forall x, In x ph1 -> In x pre /\ has tb0 x = false /\ has tb1 x = true).
+Proof.
+  intros Hrn Hra Hin.
+  assert (Hk : keys_from tb0 ph1 tb1).
+  { eapply resolves_all_keys_from; eauto. intros x Hx. auto. }
+  apply delayed_matched_In in Hin. destruct Hin as (t & Hin & _ & Hr & Hp & _).
+  split; [|split; [auto|split; [auto|]]].
+  - apply (in_map fst) in Hin. simpl in Hin. destruct (Hk k Hin) as [H|[H|H]]; auto; [contradiction | congruence].
+  - intros x Hx. destruct (resolves_all_ph _ _ _ _ _ _ _ _ Hra x Hx) as [[]|H]; auto.
+Qed.
+
+(* ... and before the repair the loop went wrong only on command lines with such a sub-task name: when no
+   sub-task placeholder is made, the old loop computes the same *)
+Lemma resolves_all_ph_mono auto tg ph tb fl ph' tb' sel :
+  resolves_all auto tg ph tb fl ph' tb' sel -> incl ph ph'.
+Proof.
+  intros H. induction H as [|ph tb f r ph1 tb1 s ph2 tb2 s' Hr Hra IH]; [apply incl_refl|].
+  intros x Hx. apply IH. inversion Hr; subst; auto. right; auto.
+Qed.
+
+Theorem filter_list_legacy_same auto tg fl : forall tb tb' sel,
+  resolves_all auto tg [] tb fl [] tb' sel ->
+  filter_list_legacy basename_of re_match regex_name is_regex_name auto tg tb fl = inr (tb', sel).
+Proof.
+  induction fl as [|f r IH]; intros tb tb' sel H; cbn [Select.filter_list_legacy].
+  - inversion H; subst. reflexivity.
+  - inversion H as [|a1 a2 a3 a4 ph1 tb1 s a8 a9 s' Hr Hra]; subst.
+    assert (ph1 = []) as ->.
+    { apply resolves_all_ph_mono in Hra. destruct ph1 as [|x ph1]; auto. destruct (Hra x). left; auto. }
+    apply filter_one_Some in Hr. unfold Select.filter_one_legacy. rewrite Hr.
+    rewrite (IH _ _ _ Hra). reflexivity.
 Qed.
 
 (* ---------- tables without delayed creators ---------- *)
 Lemma no_loader_lookup tb k t : no_loader tb -> lookup tb k = Some t -> s_loader t = None.
 Proof. intros H E. apply lookup_In in E. eauto. Qed.
 
-Lemma delayed_matched_no_loader auto tb f : no_loader tb -> delayed_matched auto tb f = [].
+Lemma delayed_matched_no_loader auto ph tb f : no_loader tb -> delayed_matched auto ph tb f = [].
 Proof.
   unfold Select.delayed_matched, no_loader. induction tb as [|[k t] r IH]; intros H; simpl; auto.
   rewrite (H k t) by (left; reflexivity). simpl. apply IH. intros k' t' Hin. apply (H k' t'). right; auto.
 Qed.
 
-Lemma resolves_static auto tg tb f tb1 s :
-  no_loader tb -> (resolves auto tg tb f tb1 s <-> tb1 = tb /\ exists n, s = [n] /\ stands_for tg tb f n).
+Lemma resolves_static auto tg ph tb f ph1 tb1 s :
+  no_loader tb ->
+  (resolves auto tg ph tb f ph1 tb1 s <-> ph1 = ph /\ tb1 = tb /\ exists n, s = [n] /\ stands_for tg tb f n).
 Proof.
   intros Hnl. unfold stands_for. split.
   - intros H; inversion H; subst.
-    + split; auto. exists f. auto.
-    + split; auto. exists p. auto.
+    + split; auto. split; auto. exists f. auto.
+    + split; auto. split; auto. exists p. auto.
     + rewrite (no_loader_lookup _ _ _ Hnl H2) in H3. discriminate.
     + rewrite delayed_matched_no_loader in H3; auto. congruence.
-  - intros (-> & n & -> & [[H1 ->]|[H1 H2]]).
+  - intros (-> & -> & n & -> & [[H1 ->]|[H1 H2]]).
     + apply by_name; auto.
     + apply by_target; auto.
 Qed.
 
-Lemma unresolvable_static auto tg tb f :
-  no_loader tb -> (unresolvable auto tg tb f <-> ~ known tg tb f).
+Lemma unresolvable_static auto tg ph tb f :
+  no_loader tb -> (unresolvable auto tg ph tb f <-> ~ known tg tb f).
 Proof.
   intros Hnl. unfold unresolvable, known. split.
   - intros (H1 & H2 & _) [H|H]; congruence.
@@ -314,18 +455,19 @@ Proof.
     + apply delayed_matched_no_loader; auto.
 Qed.
 
-Lemma resolves_all_static auto tg tb fl tb' sel :
-  no_loader tb -> (resolves_all auto tg tb fl tb' sel <-> tb' = tb /\ Forall2 (stands_for tg tb) fl sel).
+Lemma resolves_all_static auto tg ph tb fl ph' tb' sel :
+  no_loader tb ->
+  (resolves_all auto tg ph tb fl ph' tb' sel <-> ph' = ph /\ tb' = tb /\ Forall2 (stands_for tg tb) fl sel).
 Proof.
   intros Hnl. split.
   - intros H. induction H.
     + split; auto.
-    + apply resolves_static in H; auto. destruct H as (-> & n & -> & Hs).
-      destruct (IHresolves_all Hnl) as (-> & HF). split; auto. simpl. constructor; auto.
-  - intros (-> & HF). induction HF.
+    + apply resolves_static in H; auto. destruct H as (-> & -> & n & -> & Hs).
+      destruct (IHresolves_all Hnl) as (-> & -> & HF). split; auto. split; auto. simpl. constructor; auto.
+  - intros (-> & -> & HF). induction HF.
     + constructor.
     + change (y :: l') with ([y] ++ l'). econstructor; eauto.
-      apply resolves_static; auto. split; auto. exists y. auto.
+      apply resolves_static; auto. split; auto. split; auto. exists y. auto.
 Qed.
 
 Lemma known_dec tg tb f : known tg tb f \/ ~ known tg tb f.
@@ -357,25 +499,26 @@ Proof.
   induction 1; constructor; auto. apply known_stands_for. eauto.
 Qed.
 
-Theorem filter_list_static_ok auto tg tb fl tb' sel :
+Theorem filter_list_static_ok auto tg ph tb fl ph' tb' sel :
   no_loader tb ->
-  (filter_list auto tg tb fl = inr (tb', sel) <-> tb' = tb /\ Forall2 (stands_for tg tb) fl sel).
+  (filter_list auto tg ph tb fl = inr (ph', tb', sel) <->
+   ph' = ph /\ tb' = tb /\ Forall2 (stands_for tg tb) fl sel).
 Proof. intros H. rewrite filter_list_ok. apply resolves_all_static; auto. Qed.
 
-Theorem filter_list_static_err auto tg tb fl f :
+Theorem filter_list_static_err auto tg ph tb fl f :
   no_loader tb ->
-  (filter_list auto tg tb fl = inl f <->
+  (filter_list auto tg ph tb fl = inl f <->
    exists pre post, fl = pre ++ f :: post /\ Forall (known tg tb) pre /\ ~ known tg tb f).
 Proof.
   intros Hnl. rewrite filter_list_err. split.
-  - intros (pre & post & tb1 & s1 & -> & Hra & Hun).
-    apply resolves_all_static in Hra; auto. destruct Hra as (-> & HF).
+  - intros (pre & post & ph1 & tb1 & s1 & -> & Hra & Hun).
+    apply resolves_all_static in Hra; auto. destruct Hra as (-> & -> & HF).
     exists pre, post. split; [reflexivity|]. split.
     + eapply Forall2_stands_known; eauto.
     + apply unresolvable_static in Hun; auto.
   - intros (pre & post & -> & Hk & Hun).
     destruct (Forall_known_Forall2 _ _ _ Hk) as (s & Hs).
-    exists pre, post, tb, s. split; [reflexivity|]. split.
+    exists pre, post, ph, tb, s. split; [reflexivity|]. split.
     + apply resolves_all_static; auto.
     + apply unresolvable_static; auto.
 Qed.
@@ -625,21 +768,21 @@ Proof.
   unfold Select.select_core. rewrite Hi. cbn [Select.process]. unfold Select.filter_tasks. rewrite Hpf.
   split.
   - intros selected tb' tg'.
-    destruct (filter_list auto (c_targets c) (c_tasks c) (expand_sel (c_order c) sel)) as [e|[tb1 s]] eqn:E.
+    destruct (filter_list auto (c_targets c) [] (c_tasks c) (expand_sel (c_order c) sel)) as [e|[[ph1 tb1] s]] eqn:E.
     + split; [discriminate|]. intros (-> & -> & HF).
-      assert (E2 : filter_list auto (c_targets c) (c_tasks c) (expand_sel (c_order c) sel) = inr (c_tasks c, selected))
+      assert (E2 : filter_list auto (c_targets c) [] (c_tasks c) (expand_sel (c_order c) sel) = inr ([], c_tasks c, selected))
         by (apply filter_list_static_ok; auto).
       congruence.
-    + apply filter_list_static_ok in E; auto. destruct E as (-> & HF). split.
+    + apply filter_list_static_ok in E; auto. destruct E as (-> & -> & HF). split.
       * intros H; inversion H; subst. auto.
       * intros (-> & -> & HF2). f_equal.
         eapply stands_for_fun; eauto.
   - intros f.
-    destruct (filter_list auto (c_targets c) (c_tasks c) (expand_sel (c_order c) sel)) as [e|[tb1 s]] eqn:E.
+    destruct (filter_list auto (c_targets c) [] (c_tasks c) (expand_sel (c_order c) sel)) as [e|[[ph1 tb1] s]] eqn:E.
     + pose proof E as E'. apply filter_list_static_err in E; auto. split.
       * intros H; inversion H; subst. auto.
-      * intros H. apply (filter_list_static_err auto) in H; auto. congruence.
-    + split; [discriminate|]. intros H. apply (filter_list_static_err auto) in H; auto. congruence.
+      * intros H. apply (filter_list_static_err auto _ []) in H; auto. congruence.
+    + split; [discriminate|]. intros H. apply (filter_list_static_err auto _ []) in H; auto. congruence.
 Qed.
 
 (* whatever the table and the command line: how a selection fails, and that it then selects nothing *)
@@ -648,24 +791,24 @@ Theorem select_failures auto single tb c sel :
   (select_core auto single (Some sel) tb = RParseErr <->
    process_filter (c_order c) (c_tasks c) MName pstate0 sel = None) /\
   (forall f, select_core auto single (Some sel) tb = RNotFound f <->
-   exists fl st pre post tb1 s1,
+   exists fl st pre post ph1 tb1 s1,
      process_filter (c_order c) (c_tasks c) MName pstate0 sel = Some (fl, st) /\ fl = pre ++ f :: post /\
-     resolves_all auto (c_targets c) (c_tasks c) pre tb1 s1 /\ unresolvable auto (c_targets c) tb1 f).
+     resolves_all auto (c_targets c) [] (c_tasks c) pre ph1 tb1 s1 /\ unresolvable auto (c_targets c) ph1 tb1 f).
 Proof.
   intros Hi. unfold Select.select_core. rewrite Hi. cbn [Select.process]. unfold Select.filter_tasks.
   destruct (process_filter (c_order c) (c_tasks c) MName pstate0 sel) as [[fl st]|] eqn:Epf.
   - split.
-    + destruct (filter_list auto (c_targets c) (c_tasks c) fl) as [e|[tb1 s]]; split; discriminate.
+    + destruct (filter_list auto (c_targets c) [] (c_tasks c) fl) as [e|[[ph1 tb1] s]]; split; discriminate.
     + intros f. split.
-      * destruct (filter_list auto (c_targets c) (c_tasks c) fl) as [e|[tb1 s]] eqn:E; [|discriminate].
+      * destruct (filter_list auto (c_targets c) [] (c_tasks c) fl) as [e|[[ph1 tb1] s]] eqn:E; [|discriminate].
         intros H; inversion H; subst. apply filter_list_err in E.
-        destruct E as (pre & post & tb1 & s1 & E1 & E2 & E3). exists fl, st, pre, post, tb1, s1. auto.
-      * intros (fl' & st' & pre & post & tb1 & s1 & E0 & E1 & E2 & E3). inversion E0; subst.
-        assert (E : filter_list auto (c_targets c) (c_tasks c) (pre ++ f :: post) = inl f).
-        { apply filter_list_err. exists pre, post, tb1, s1. auto. }
+        destruct E as (pre & post & ph1 & tb1 & s1 & E1 & E2 & E3). exists fl, st, pre, post, ph1, tb1, s1. auto.
+      * intros (fl' & st' & pre & post & ph1 & tb1 & s1 & E0 & E1 & E2 & E3). inversion E0; subst.
+        assert (E : filter_list auto (c_targets c) [] (c_tasks c) (pre ++ f :: post) = inl f).
+        { apply filter_list_err. exists pre, post, ph1, tb1, s1. auto. }
         rewrite E. reflexivity.
   - split; [split; reflexivity|]. intros f. split; [discriminate|].
-    intros (fl' & st' & pre & post & tb1 & s1 & E0 & _). discriminate.
+    intros (fl' & st' & pre & post & ph1 & tb1 & s1 & E0 & _). discriminate.
 Qed.
 
 (* ---------- default_tasks ---------- *)
